@@ -14,6 +14,7 @@ import (
 	"go.uber.org/zap/exp/zapslog"
 	"go.uber.org/zap/zapcore"
 	"go.uber.org/zap/zapgrpc"
+	"go.uber.org/zap/zapio"
 	"go.uber.org/zap/zaptest/observer"
 	"pgregory.net/rapid"
 )
@@ -353,9 +354,9 @@ func propC05(t *rapid.T) {
 
 	logOnce := func(lgr *c05Logger) {
 		lv := zapcore.Level(rapid.OneOf(rapid.Int8Range(-2, 6), rapid.SampledFrom(c05Levels), rapid.Int8()).Draw(t, "level"))
-		fronts := []string{"log", "check", "sugarLogw", "sugarLog", "sugarLogf", "sugarLogln"}
+		fronts := []string{"log", "check", "sugarLogw", "sugarLog", "sugarLogf", "sugarLogln", "zapio"}
 		if lv >= zapcore.DebugLevel && lv <= zapcore.FatalLevel {
-			fronts = append(fronts, "method", "method")
+			fronts = append(fronts, "method", "method", "stdlog", "sugarMethodw")
 		}
 		if lv >= zapcore.InfoLevel && lv <= zapcore.ErrorLevel {
 			fronts = append(fronts, "grpc")
@@ -435,6 +436,22 @@ func propC05(t *rapid.T) {
 			case zapcore.FatalLevel:
 				lg.Fatal(msg, f)
 			}
+		case "stdlog":
+			std, err := zap.NewStdLogAt(lg, lv)
+			if err != nil {
+				t.Fatalf("NewStdLogAt(%v): %v", lv, err)
+			}
+			std.Print(msg)
+			hasField = false
+		case "zapio":
+			w := &zapio.Writer{Log: lg, Level: lv}
+			if n, err := w.Write([]byte(msg + "\n")); n != len(msg)+1 || err != nil {
+				t.Fatalf("zapio.Writer.Write = %d, %v", n, err)
+			}
+			hasField = false
+		case "sugarMethodw":
+			sg := lg.Sugar()
+			[]func(string, ...any){sg.Debugw, sg.Infow, sg.Warnw, sg.Errorw, sg.DPanicw, sg.Panicw, sg.Fatalw}[lv+1](msg, "o", obj)
 		case "sugarLogw":
 			lg.Sugar().Logw(lv, msg, "o", obj)
 		case "sugarLog":
